@@ -96,6 +96,8 @@ def make_requests(rng, tree, client, n, xtalk=False):
             plan.append((rng.choice(lv)[1], 'sleep', rng.choice([0.0005, 0.002, 0.008])))
         if sw and rng.random() < 0.06:
             plan.append(('SW', rng.choice(['unroutable', 'unroutable', 'badindex']), None))  # the user's switch() fails for this input
+        if not plan and not leaf[3] and rng.random() < 0.03:
+            plan.append((leaf[1], 'return-exc', None))  # the worker RETURNS an exception object (never raised: no traceback)
         if rng.random() < 0.03:
             # an input that cannot be pickled: fine between threads, a failure of this one request at the first process boundary
             plan.append(('_', 'unpicklable', targets.UNPICKLABLE))
@@ -190,6 +192,19 @@ def run_sync(case, tree, servlet, viol, obs, shadow_box, fz):
                     viol.append({'mech': 'server/stream-count', 'msg': f'stream yielded {k} outcomes for {len(toks)} inputs'})
         else:
             for tok, dl in reqs:
+                if dl == 30 and tok[2] % 23 == 7:
+                    # the input IS an exception object that was never raised: it is short-circuited as this request's failure
+                    ein = targets.Boom('as-input', tok[1], tok[2])
+                    try:
+                        y = server.call(ein, timeout=dl, backpressure=False)
+                    except BaseException as e:  # noqa: BLE001
+                        y = e
+                    with lock:
+                        obs['requests'] += 1
+                        obs['exception_objects_as_input'] = obs.get('exception_objects_as_input', 0) + 1
+                        if not (isinstance(y, targets.Boom) and y.args == ('as-input', tok[1], tok[2])):
+                            mech = 'server/lost-response' if isinstance(y, TimeoutError) else 'server/wrong-outcome'
+                            viol.append({'mech': mech, 'msg': f'call: an exception object passed as input ({ein!r}) came back as {y!r}; expected that exception raised'})
                 try:
                     y = server.call(tok, timeout=dl, backpressure=False)
                 except BaseException as e:  # noqa: BLE001
